@@ -3,7 +3,7 @@ import ast
 import z3
 
 from .ty import (TInt, TReal, TBool, TStr, TNone, TAny, TTuple, TRec, TList, TDict, TSet, TOpt,
-                 TUnion, TObj, TFunc)
+                 TUnion, TObj, TFunc, TLin)
 from .vals import *  # noqa
 from .symex import t_and, t_or, t_not, t_ite, to_real
 from .interp import Interp, NUM
@@ -68,8 +68,12 @@ class CompMixin(Interp):
                 return Source(items=[VTuple([VInt(i + v.start), x]) for i, x in enumerate(s.items)])
             if s.seqsrc is not None or getattr(s, "indexed", False):
                 idx = s.binders[0]
-                return Source(binders=s.binders, guard=s.guard, elem=VTuple([VInt(idx + v.start), s.elem]), seqsrc=None)
-            raise Unsupported("enumerate over an unordered abstract collection")
+                r = Source(binders=s.binders, guard=s.guard, elem=VTuple([VInt(idx + v.start), s.elem]), seqsrc=None)
+                r.indexed = True
+                return r
+            # unordered source: the index is some injective numbering (unspecified)
+            f = self.ctx.ufunc("enum_index" + "".join("," + str(b.sort()) for b in s.binders), *[b.sort() for b in s.binders], z3.IntSort())
+            return Source(binders=s.binders, guard=s.guard, elem=VTuple([VInt(f(*s.binders)), s.elem]), ordered=False)
         if isinstance(v, VFunc) and v.kind == "zip":
             ss = [self.source(st, a) for a in v.args]
             if all(s.concrete for s in ss):
@@ -94,6 +98,10 @@ class CompMixin(Interp):
                 if mode == "values":
                     return Source(items=[self.load(st, VRef(v.root, v.path + (("k", k),))) for k, _ in h.items])
                 return Source(items=[k for k, _ in h.items])
+            if isinstance(h, HBag):
+                ren = [(b, self.fresh(st, "b", b.sort())) for b in h.binders]
+                return Source(binders=[r for _, r in ren], guard=z3.substitute(h.guard, *ren) if ren else h.guard,
+                              elem=subst(h.elem, ren), ordered=False)
             if isinstance(h, HSeq):
                 i = self.fresh(st, "i", z3.IntSort())
                 s = Source(binders=[i], guard=z3.And(0 <= i, i < z3.Length(h.t)), elem=self.lift(h.t[i], h.elem_ty), seqsrc=(h.t, i))
@@ -368,6 +376,8 @@ class CompMixin(Interp):
                 return VInt(z3.Length(h.t))
             if isinstance(h, (HList, HPyDict, HPySet)):
                 return VInt(len(h.items))
+            if isinstance(h, HBag):
+                return VInt(self.bigsum(st, h.binders, h.guard, z3.IntVal(1)))
             if isinstance(h, HListC):
                 return VInt(h.length)
             if isinstance(h, HDict):
